@@ -20,7 +20,8 @@ Record oitem := mkOItem {
 Inductive ores := OROk (obj : Z) (v : N) (acc rej : N) | ORErr (kind tag : N).
 Inductive ev :=
 | EPoll | EStart (id seed v : N) | EReturned (seed : N) (o : rawout) | EItems (l : list oitem)
-| EPending | EReady (r : ores) | EHang | ETerminate | ECloseCmd | ECloseReports | EReplayMismatch.
+| EPending | EReady (r : ores) | EHang | ETerminate | ECloseCmd | ECloseReports | EReplayMismatch
+| ECsvMismatch.   (* [DetailedReportItem::to_csv_row] of a received item does not read back as its fields *)
 Record run_obs := mkRunObs {
   ro_idx : N; ro_nc : N; ro_budget : option N; ro_target : option Z; ro_ss : N; ro_init : N;
   ro_events : list ev }.
@@ -207,12 +208,13 @@ Section Replay.
     | ECloseReports =>
         [mkAst (a_c a) (a_ret a) (a_pend a) (a_q a) (a_items a) (a_cmd_closed a) true (a_fired a)]
     | EReplayMismatch => [a]
+    | ECsvMismatch => [a]
     end.
 
   Definition ev_kind (e : ev) : N :=
     match e with
     | EPoll => 0 | EStart _ _ _ => 1 | EReturned _ _ => 2 | EItems _ => 3 | EPending => 4
-    | EReady _ => 5 | EHang => 6 | ETerminate => 7 | ECloseCmd => 8 | ECloseReports => 9 | EReplayMismatch => 10
+    | EReady _ => 5 | EHang => 6 | ETerminate => 7 | ECloseCmd => 8 | ECloseReports => 9 | EReplayMismatch => 10 | ECsvMismatch => 11
     end.
 
   (** NFA simulation; on rejection: index and kind of the event that emptied the state set *)
@@ -526,7 +528,7 @@ Section Monitors.
     end.
   (* the last processed evaluation's item may be missing only when the report channel was closed *)
   Definition mon_C14 : bool :=
-    forallb meta_ok items &&
+    forallb meta_ok items && negb (has (fun e => match e with ECsvMismatch => true | _ => false end)) &&
     (has (fun e => match e with ECloseReports | EHang => true | _ => false end) || items_vs_returns items returns) &&
     match final with
     | Some (OROk _ _ acc rej) => N.eqb acc nacc && N.eqb rej nrej
